@@ -104,8 +104,7 @@ package s2
 //@ func facePiQitoXYZ(face int, pi, qi uint32, level int) r3.Vector
 //@   assumed "float-only computation; face is reduced by a switch with default"
 
-//@ func CellFromCellID(id CellID) Cell
-//@   assumed "cell geometry from an arbitrary 64-bit id: float code; table indices verified under C12"
+// CellFromCellID is specified in vc_cell_verif.go (C12); Cell.decode passes it an arbitrary 64-bit id, see there.
 
 // ---- value decoders
 
